@@ -67,10 +67,12 @@ type LCfg struct {
 	PSrcCap           int
 	PSrcAllot         int
 	PSrcSeq           int
-	PFunded           int // percent of starting balances that are plainly positive (1..30)
-	PSaveDrawn        int // percent of saves that name an account drawn from by an earlier statement, and of source picks that name a saved account
-	PAligned          int // percent of statements that are "aligned" sends (see alignedSend)
-	PLongSrc          int // percent of plain sends whose source is a flat list of 12..Fanout entries
+	PFunded           int  // percent of starting balances that are plainly positive (1..30)
+	PSaveDrawn        int  // percent of saves that name an account drawn from by an earlier statement, and of source picks that name a saved account
+	Ladder            bool // long sources / destinations take their length from a ladder of sizes around powers of two up to 1025
+	PLongDst          int  // percent of plain sends whose destination is a flat ordered list of 12..Fanout capped clauses
+	PAligned          int  // percent of statements that are "aligned" sends (see alignedSend)
+	PLongSrc          int  // percent of plain sends whose source is a flat list of 12..Fanout entries
 	PDstSeq           int
 	PDstAllot         int
 	PKept             int
@@ -218,7 +220,8 @@ func (g *lgen) accountExpr(name string) Expr {
 }
 
 func (g *lgen) assetExpr(asset string) Expr {
-	if g.pct(g.cfg.PVarAcct / 2) {
+	// an asset name that cannot be written as a literal (it holds a ':') arrives through a variable
+	if strings.Contains(asset, ":") || g.pct(g.cfg.PVarAcct/2) {
 		if name, ok := g.acctVars["asset:"+asset]; ok && g.r.Chance(2, 3) {
 			return &Var{Name: name}
 		}
@@ -284,7 +287,7 @@ func (g *lgen) monetaryExpr(asset string, n *big.Int, tunable bool) (Expr, func(
 		k := SmallOrBig(g.r, 0)
 		l, _ := g.monetaryExpr(asset, new(big.Int).Add(n, k), false)
 		if _, isInfix := l.(*Infix); !isInfix || g.r.Bool() {
-			r := &Mon{Asset: &Asset{Name: asset}, Amount: g.numberAtom(k)}
+			r := &Mon{Asset: g.assetExpr(asset), Amount: g.numberAtom(k)}
 			return &Infix{Op: '-', L: l, R: r}, nil
 		}
 	}
@@ -334,7 +337,12 @@ func (g *lgen) portionLit(p *big.Rat) Expr {
 						}
 						intPart, frac = s[:len(s)-dec], s[len(s)-dec:]
 					}
-					frac += strings.Repeat("0", 1+g.r.Intn(24-dec))
+					pad := 1 + g.r.Intn(24-dec)
+					if g.r.Chance(1, 5) {
+						// far more decimals than anyone needs
+						pad = []int{40, 61, 62, 63, 64, 65, 70, 100, 200}[g.r.Intn(9)]
+					}
+					frac += strings.Repeat("0", pad)
 					return &Percent{Text: intPart + "." + frac + "%"}
 				}
 				if dec == 0 {
@@ -571,8 +579,9 @@ func (g *lgen) stmt() {
 				fn = "overdraft"
 				g.c.Flags["experimental-overdraft-function"] = true
 			}
+			assetArg := g.assetExpr(g.asset) // may declare an asset variable: before the origin that reads it
 			g.c.Script.Vars = append(g.c.Script.Vars, &VarDecl{Type: "monetary", Name: name,
-				Origin: &Call{Name: fn, Args: []Expr{&Account{Name: acct}, &Asset{Name: g.asset}}}})
+				Origin: &Call{Name: fn, Args: []Expr{&Account{Name: acct}, assetArg}}})
 			g.c.Tags["origin"] = true
 			e = &Var{Name: name}
 			g.lastAmt[g.asset] = &amtVar{expr: e}
@@ -598,6 +607,9 @@ func (g *lgen) stmt() {
 			src = g.longSource()
 		}
 		dst := g.dest(g.r.Range(0, g.cfg.Depth))
+		if g.pct(g.cfg.PLongDst) {
+			dst = g.longDest()
+		}
 		g.c.Script.Stmts = append(g.c.Script.Stmts, &Send{Sent: &SentValue{E: e}, Src: src, Dst: dst})
 		g.c.Tune = append(g.c.Tune, set)
 	}
@@ -688,6 +700,49 @@ func (g *lgen) alignedSend() {
 	g.c.Tags["aligned"] = true
 }
 
+// longLen draws the length of a long list: uniform in [12, hi], or, with cfg.Ladder, a size next
+// to a power of two (list lengths where buffers, pages and indexes change regime).
+func (g *lgen) longLen(hi int) int {
+	if !g.cfg.Ladder {
+		return g.r.Range(12, hi)
+	}
+	sizes := []int{15, 16, 17, 31, 32, 33, 63, 64, 65, 127, 128, 129, 255, 256, 257, 511, 512, 513, 999, 1000, 1001, 1023, 1024, 1025}
+	var ok []int
+	for _, s := range sizes {
+		if s <= hi {
+			ok = append(ok, s)
+		}
+	}
+	if len(ok) == 0 {
+		return hi
+	}
+	// the long ones are expensive: favour them only mildly
+	return ok[g.r.Intn(len(ok))]
+}
+
+// longDest is a flat ordered destination of many capped clauses (small caps) and a remaining one.
+func (g *lgen) longDest() Dest {
+	hi := g.cfg.Fanout
+	if hi < 14 {
+		hi = 14
+	}
+	k := g.longLen(hi)
+	d := &DstInorder{}
+	for i := 0; i < k; i++ {
+		cap, _ := g.monetaryExpr(g.asset, big.NewInt(int64(g.r.Intn(4))), false)
+		var to *KOD
+		if g.r.Chance(1, 12) {
+			to = &KOD{Kept: true}
+		} else {
+			to = &KOD{To: &DstAccount{E: g.accountExpr(rng.PickOf(g.r, g.cfg.Accounts))}}
+		}
+		d.Clauses = append(d.Clauses, &DstClause{Cap: cap, To: to})
+	}
+	d.Remaining = &KOD{To: &DstAccount{E: g.accountExpr(rng.PickOf(g.r, g.cfg.Accounts))}}
+	g.c.Tags["long-destination"] = true
+	return d
+}
+
 // longSource is a flat in-order source of a dozen to Fanout entries, some of them capped (so that
 // the account keeps funds for later entries and statements), accounts repeating now and then.
 func (g *lgen) longSource() Source {
@@ -695,7 +750,7 @@ func (g *lgen) longSource() Source {
 	if hi < 14 {
 		hi = 14
 	}
-	k := g.r.Range(12, hi)
+	k := g.longLen(hi)
 	// mostly distinct accounts (a random selection of the pool, completed by random picks when the
 	// pool is smaller than the list), then a few accounts of the list once more at the end
 	pool := append([]string(nil), g.cfg.Accounts...)
